@@ -7,6 +7,7 @@
   `redactString`, `reMatchesAnyKeyInPath`, `getOp`, `traverseMapPath`, `IsEmail` as it is on this run.
 -/
 import Anonymongo.Props.Src.Path
+import Anonymongo.Props.Src.Leaf
 import Anonymongo.Generated.Tables
 namespace Anonymongo.Src
 open Anonymongo Anonymongo.Go
